@@ -28,15 +28,15 @@ type LaneFn = fn(&Ctx) -> Report;
 pub fn lanes_of(id: &str) -> Vec<(&'static str, LaneFn)> {
     match id {
         "C01" => vec![("routing", c01::routing), ("hostile_ids", c01::hostile_ids), ("abandoned", c01::abandoned), ("routing_threads", c01::routing_threads)],
-        "C02" => vec![("requests", c02::requests), ("modifiers", c02::modifiers)],
-        "C03" => vec![("responses", c03::responses), ("helpers", c03::helpers)],
-        "C04" => vec![("cuts", c04::cuts), ("write_errors", c04::write_errors), ("handle_drops", c04::handle_drops), ("real_transports", c04::real_transports), ("paged_connection_loss", c16::paging_faults), ("malformed_results", c04::malformed_results)],
+        "C02" => vec![("requests", c02::requests), ("modifiers", c02::modifiers), ("composed_requests", c02::composed_requests)],
+        "C03" => vec![("responses", c03::responses), ("helpers", c03::helpers), ("paged_results", c03::paged_results)],
+        "C04" => vec![("cuts", c04::cuts), ("write_errors", c04::write_errors), ("handle_drops", c04::handle_drops), ("real_transports", c04::real_transports), ("paged_connection_loss", c16::paging_faults), ("malformed_results", c04::malformed_results), ("late_readers", c04::late_readers), ("unbind_under_backpressure", c04::unbind_under_backpressure)],
         "C05" => vec![("wrap", c05::wrap), ("threads", c05::threads)],
         "C06" => vec![("decoder_prefixes", c06::decoder_prefixes), ("partitions", c06::partitions), ("exhaustive_splits", c06::exhaustive_splits), ("bursts", c06::bursts)],
         "C07" => vec![("trees", c07::trees), ("integers", c07::integers), ("nonminimal", c07::nonminimal)],
         "C08" => vec![("generated", c08::generated), ("exhaustive", c08::exhaustive), ("mutated", c08::mutated), ("rejection", c08::rejection_classes)],
         "C09" => vec![("exhaustive_short", c09::exhaustive_short), ("exhaustive_meta", c09::exhaustive_meta), ("random", c09::random)],
-        "C10" => vec![("streams", c10::streams), ("search_collect", c10::search_collect)],
+        "C10" => vec![("streams", c10::streams), ("search_collect", c10::search_collect), ("sync_streams", c10::sync_streams)],
         "C11" => vec![("decoder", c11::decoder), ("driver", c11::driver), ("stack", c11::stack)],
         "C12" => vec![("timeouts", c12::timeouts)],
         "C13" => vec![("histories", c13::histories), ("long_histories", c13::long_histories)],
